@@ -21,17 +21,24 @@
      substitutions as a simultaneous assignment (C07_selection_parallel_moves), and the agreement of the
      model's address arithmetic with the crate's values (C07_constants_agree).
 
-   NOT proved (gap of C07_selection_partial):
-     - L1 -> L2 for the memory operations: store/load (release and share modes, multi-block chains,
-       block pointer in a spill slot with X10 evacuated), acquire_block, erase_block, share_block_n;
-     - L1 -> L2 for print_i64 (save/restore of caller-saved registers; that is C13's theorem) and for
-       the routine prologue/epilogue;
-     - the reference-count updates that accompany a substitution (erase/share) and the glue between
-       `connections` (typing contexts -> move graph) and C07_selection_parallel_moves;
-     - the generic simulation L0 -> L1 (code_statement over the 11 statement forms, labels, tables).
-   Whole-program preservation is therefore established by the correspondence check (model = Rust on
-   every program) plus execution of the implementation's output on the ISA model against the AxCut
-   machine on every run (see the evidence file), and stated below as C07_codegen_correct_statement. *)
+   ALSO PROVED (second half of this file, round 2): the forward simulation L0 -> L2 of the generic code generator
+   instantiated at AArch64 for the integer fragment and for closures without captured variables - state
+   relation, one theorem per statement form for every context shape (C07_sim_literal / op / op_undefined / ifc /
+   substitute / print / call / exit / prologue / epilogue / create / invoke; print and prologue/epilogue through
+   the C13 theorems of Proof/A64Print.v and A64Entry.v, the substitution through the C11 theorems of
+   Proof/A64Subst.v and A64MemSubst.v), composition (C07_sim_exec, C07_sim_exec_cf) and the program-level theorems
+   C07_codegen_simulates_int and C07_codegen_simulates_cf.
+
+   NOT proved:
+     - L1 -> L2 for the heap statements: store/load (release and share modes, multi-block chains, block pointer in
+       a spill slot with X10 evacuated) and acquire_block on the ISA semantics, hence Let / Switch and Create /
+       Invoke of closures WITH captured variables in the simulation (erase_block / share_block_n are proved:
+       Proof/A64MemSubst.v);
+     - divergence (nothing is said when the linear machine runs out of fuel); label uniqueness is a checked
+       hypothesis (asm_wf, C14), not a consequence.
+   For the heap statements whole-program preservation is established by the correspondence check (model = Rust on
+   every program) plus execution of the implementation's output on the ISA model against the AxCut machine on
+   every run (see the evidence file); the full statement is C07_codegen_correct_statement below. *)
 From Coq Require Import List ZArith NArith String Bool.
 From SCC Require Import Model.ParMoves.
 From SCC Require Import Lang.AxSyn Sem.AxSem Model.Backend Model.A64 Sem.A64Sem
@@ -221,3 +228,505 @@ Definition C07_codegen_correct_statement : Prop :=
     run_linear fuel p args = o -> defined o = true ->
     exists outer inner, fst (run_a64 outer inner cs args) = o.
 Definition a64_codegen_correct : Prop := C07_codegen_correct_statement.
+
+
+(* ======================================================================================== *)
+(* Forward simulation of the generic code generator instantiated at AArch64                   *)
+(* (port of the x86-64 development of Props/C06.v; worker sim64)                              *)
+(* ======================================================================================== *)
+From SCC Require Import Model.LinCheck Sem.A64Wf Proof.A64Exec Proof.SubstGraph Proof.A64Subst Proof.A64Print Proof.A64Entry
+     Proof.SimFrag Proof.A64SimRel Proof.A64SimStmt Proof.A64SimProg Proof.A64SimTop Proof.A64SimExample.
+Open Scope list_scope.
+(* THE STATE RELATION  `rel CL c e s sp`  (Proof/A64SimRel.v) between a configuration of the linear AxCut
+   machine - the typing context c the generator threads and the environment e, a list of (name, value)
+   by position - and an ISA state s:  SP = sp with sp = 0 (mod 16) (the hardware rule for sp-relative
+   accesses) and the whole spill area [sp, sp+2048) inside the stack region, 144 bytes of room below sp for the
+   pushes around a print call, X1 (deferred-free list) defined; e and c name the same ids in the same order,
+   pairwise distinct; position i is represented (`vrep`) as
+     integer z (binding ext i64):  the SECOND temporary of position i (register X(2i+5) for i < 13 - for i = 12
+                                   that is internal register 29 = X30, the LINK register - or spill slot 2i-24
+                                   from position 13 on; slot 0 is the scratch slot) holds z, and z is a 64-bit
+                                   value (`in64 z`: literal synthesis from half-words, SDIV/MSUB and the NZCV
+                                   conditions are exact on 64-bit values only);
+     closure without captured variables (binding cns T): first temporary = null block pointer, second
+                                   temporary = a code address a with `CL a T clauses`.
+   Not constrained: first temporaries of integers, X2, X3 (scratch), X0, the flags, spill slot 0, the stack
+   below sp.  CL, what a closure's code pointer points to, is a parameter of the statement-level theorems.
+   `frame_eq s s' sp`: heap, output and every stack word outside the spill area are unchanged;
+   `above_eq`: heap and every stack word at or above sp are unchanged.
+   First consequence: the machine's operand lookup and the generator's `variable_temporary` meet. *)
+Theorem C07_sim_rel_reads :
+  forall (CL : Z -> ident -> list clause -> Prop) (c : ctx) (e : env) (s : astate) (sp : Z) (a : ident) (x : Z),
+    rel CL c e s sp -> lookup_int e a = Some x ->
+    exists i b t, nth_error c i = Some b /\ idn (bvar b) = idn a /\ tpos a64_backend Snd i = Ok t /\ lget s sp t = Some x /\ in64 x.
+Proof. exact rel_lookup. Qed.
+Print Assumptions C07_sim_rel_reads.
+(* where the positions live: X(2i+4), X(2i+5) up to position 12 (X28/X29 = internal 28, X30 = internal 29),
+   spill slots >= 1 after; never SP, XZR, X0..X3, slot 0 *)
+Theorem C07_sim_positions :
+  forall (n : tnum) (i : nat) (t : atemp),
+    tpos a64_backend n i = Ok t ->
+    ((i < 13)%nat /\ t = AR (X (2 * N.of_nat i + tnum_n n + 4))) \/ ((13 <= i)%nat /\ exists q, t = AS q /\ slot_ok q /\ q <> 0%N).
+Proof. exact atpos_shape. Qed.
+Print Assumptions C07_sim_positions.
+
+(* One theorem per statement form.  In each: ANY context c (any number of variables, so operands and
+   target in registers - X30 included - or spill slots in every combination; operands may coincide), the
+   hypotheses on the machine side are exactly the conditions under which `exec_linear` takes the step, the
+   temporaries are whatever `code_statement` computed (`variable_temporary … = Ok t`), and the conclusion
+   relates the state after the emitted code to the machine's next environment.  Each reuses the selection
+   lemma of the operation (the C07_selection theorems), nothing is re-proved. *)
+(* Literal: MOVZ / MOVN / MOVK synthesis (C07_load_immediate_every_value) of any 64-bit literal, through X2 into a
+   spill slot *)
+Theorem C07_sim_literal :
+  forall (im : image) (CL : Z -> ident -> list clause -> Prop) (c : ctx) (e : env) (s : astate) (sp : Z) (n : Z) (v : ident) (tv : atemp),
+    rel CL c e s sp -> NoDup (ids (c ++ [mkb v Ext I64])) -> in64 n ->
+    variable_temporary a64_backend Snd (c ++ [mkb v Ext I64]) (idn v) = Ok tv ->
+    exists s', run_straight im (a_load_immediate tv n) s = MOk s' /\
+               rel CL (c ++ [mkb v Ext I64]) (e ++ [(v, VInt n)]) s' sp /\ frame_eq s s' sp.
+Proof. exact sim_literal. Qed.
+Print Assumptions C07_sim_literal.
+
+(* all five operators; the result is the AxCut value (wrap-around for + - *, truncation for / %); rem is
+   SDIV + MSUB through X3, with X10 evacuated to slot 0 when target and both operands are spilled
+   (C07_selection_rem); the result is again a 64-bit value *)
+Theorem C07_sim_op :
+  forall (im : image) (CL : Z -> ident -> list clause -> Prop) (c : ctx) (e : env) (s : astate) (sp : Z) (a : ident) (o : binop)
+         (b v : ident) (x y z : Z) (tv ta tb : atemp),
+    rel CL c e s sp -> NoDup (ids (c ++ [mkb v Ext I64])) ->
+    lookup_int e a = Some x -> lookup_int e b = Some y -> eval_op o x y = OpVal z ->
+    variable_temporary a64_backend Snd (c ++ [mkb v Ext I64]) (idn v) = Ok tv ->
+    variable_temporary a64_backend Snd (c ++ [mkb v Ext I64]) (idn a) = Ok ta ->
+    variable_temporary a64_backend Snd (c ++ [mkb v Ext I64]) (idn b) = Ok tb ->
+    exists s', run_straight im (a_arith o tv ta tb) s = MOk s' /\
+               rel CL (c ++ [mkb v Ext I64]) (e ++ [(v, VInt z)]) s' sp /\ frame_eq s s' sp.
+Proof. exact sim_op. Qed.
+Print Assumptions C07_sim_op.
+
+(* the undefined cases (divisor 0, min_int / -1, for Div and Rem): the emitted code runs - after the loads of
+   spilled operands and, for the fully spilled rem, the evacuation of X10 - into the SDIV, which the ISA model
+   reports with the same reason, output unchanged *)
+Theorem C07_sim_op_undefined :
+  forall (im : image) (CL : Z -> ident -> list clause -> Prop) (c : ctx) (e : env) (s : astate) (sp : Z) (a : ident) (o : binop)
+         (b v : ident) (x y : Z) (w : string) (tv ta tb : atemp),
+    rel CL c e s sp -> NoDup (ids (c ++ [mkb v Ext I64])) ->
+    lookup_int e a = Some x -> lookup_int e b = Some y -> eval_op o x y = OpUndef w ->
+    variable_temporary a64_backend Snd (c ++ [mkb v Ext I64]) (idn v) = Ok tv ->
+    variable_temporary a64_backend Snd (c ++ [mkb v Ext I64]) (idn a) = Ok ta ->
+    variable_temporary a64_backend Snd (c ++ [mkb v Ext I64]) (idn b) = Ok tb ->
+    exists s', exec_undef im (a_arith o tv ta tb) s = Some (w, s') /\ out s' = out s.
+Proof. exact sim_op_undef. Qed.
+Print Assumptions C07_sim_op_undefined.
+Theorem C07_sim_op_undefined_observed :
+  forall (im : image) (pc : positive) (cs : list acode) (s : astate) (w : string) (s' : astate),
+    code_at im pc cs -> exec_undef im cs s = Some (w, s') -> finishes im pc s (finish (out s') (OUndef w)).
+Proof. exact exec_undef_finishes. Qed.
+Print Assumptions C07_sim_op_undefined_observed.
+
+(* IfC, all six comparison sorts, two-operand form (b = Some _: CMP on registers, spilled operands loaded into
+   X2 / X3) and zero form (b = None: CMP #0): the NZCV flags decide the signed comparison
+   (C07_flags_decide_signed_comparison), the B.cond resolves its label; control reaches the first instruction of
+   the branch the machine takes - the else branch right after the B.cond, the then branch right after the
+   label - in a related state *)
+Theorem C07_sim_ifc :
+  forall (im : image) (CL : Z -> ident -> list clause -> Prop) (c : ctx) (e : env) (s : astate) (sp : Z) (so : ifsort)
+         (a : ident) (b : option ident) (x y : Z)
+         (types : list tydecl) (thenc elsec : stmt) (lc : N) (code : list acode) (lc' : N) (pc : positive),
+    rel CL c e s sp -> lookup_int e a = Some x ->
+    match b with Some b => lookup_int e b | None => Some 0 end = Some y ->
+    code_statement a64_backend types (IfC so a b thenc elsec) c lc = Ok (code, lc') ->
+    code_at im pc code -> labels_at_nh im pc code ->
+    exists c1 c2 lc2 c3 s',
+      code = c1 ++ c2 ++ [LAB (iflabel lc)] ++ c3 /\
+      code_statement a64_backend types elsec c (lc + 1)%N = Ok (c2, lc2) /\
+      code_statement a64_backend types thenc c lc2 = Ok (c3, lc') /\
+      exec_to im pc s (if eval_cmp so x y then padd pc (List.length c1 + List.length c2 + 1)
+                       else padd pc (List.length c1)) s' /\
+      rel CL c e s' sp /\ frame_eq s s' sp.
+Proof. exact sim_ifc. Qed.
+Print Assumptions C07_sim_ifc.
+
+(* Substitute, ANY mix of integer and closure variables, any rearrangement (drop, duplicate, permute): the
+   reference-count code (one erase / share per closure variable dropped / duplicated, each skipped because
+   the block pointer of a closure without captured variables is null; worker a64abi's a64_emit_rc_ok, i.e.
+   C11's erase / share meaning theorems on AArch64) followed by the parallel moves
+   (C07_selection_parallel_moves with the frame: a64_parallel_moves_frame_ok; the move graph from
+   C11_substitute_graph_edges) leaves the machine's rearranged environment in the temporaries of the new
+   context.  `has …` is the condition lin_check imposes. *)
+Theorem C07_sim_substitute :
+  forall (im : image) (CL : Z -> ident -> list clause -> Prop) (c : ctx) (e : env) (s : astate) (sp : Z)
+         (re : list (binding * ident)) (vs : list value) (e' : env)
+         (c1 : list acode) (lc lc1 : N) (c2 : list acode) (pc : positive),
+    rel CL c e s sp -> NoDup (new_ids re) ->
+    (forall q, In q re -> has c (snd q) (bchi (fst q)) (bty (fst q)) = true) ->
+    lookups e (map snd re) = Some vs -> bind (map (fun r => bvar (fst r)) re) vs = Some e' ->
+    code_weakening_contraction a64_backend (transpose re c) c lc = Ok (c1, lc1) ->
+    code_exchange a64_backend (transpose re c) c (map fst re) = Ok c2 ->
+    code_at im pc (c1 ++ c2) -> labels_at_nh im pc (c1 ++ c2) ->
+    exists s', exec_to im pc s (padd pc (List.length (c1 ++ c2))) s' /\ rel CL (map fst re) e' s' sp /\ frame_eq s s' sp.
+Proof. exact sim_substitute. Qed.
+Print Assumptions C07_sim_substitute.
+(* in an integer context no reference-count code is emitted at all *)
+Theorem C07_sim_substitute_int_no_rc :
+  forall (c : ctx) (re : list (binding * ident)) (lc : N),
+    ctx_int c = true -> NoDup (ids c) ->
+    code_weakening_contraction a64_backend (transpose re c) c lc = Ok ([], lc).
+Proof. exact cwc_ctx_int. Qed.
+Print Assumptions C07_sim_substitute_int_no_rc.
+
+(* PrintI64 on the external-call model (SP = 0 mod 16 at the BL, X0 defined; afterwards X0-X17, the LINK
+   REGISTER X30, the flags and the stack below SP are undefined): the printed value is the variable's, every
+   live temporary of EVERY context survives - in particular the 13th variable, which lives in X30 (the case
+   repaired by fix: b8c7d78) - and SP is restored.  This is worker a64abi's a64_print_ok
+   (C13_a64_print_preserves_context) composed with the relation. *)
+Theorem C07_sim_print :
+  forall (im : image) (CL : Z -> ident -> list clause -> Prop) (c : ctx) (e : env) (s : astate) (sp : Z) (nl : bool)
+         (v : ident) (z : Z) (tv : atemp),
+    rel CL c e s sp -> lookup_int e v = Some z ->
+    variable_temporary a64_backend Snd c (idn v) = Ok tv ->
+    exists s', run_straight im (a_print nl tv c) s = MOk s' /\
+               rel CL c e s' sp /\ out s' = (nl, z) :: out s /\ above_eq s s' sp.
+Proof. exact sim_print. Qed.
+Print Assumptions C07_sim_print.
+
+(* Call: the branch changes no state; the callee's context (same kinds and types position by position:
+   lin_check's sig_match) relabels the same positions *)
+Theorem C07_sim_call :
+  forall (CL : Z -> ident -> list clause -> Prop) (c : ctx) (e : env) (st : astate) (sp : Z) (c' : ctx) (e' : env),
+    rel CL c e st sp -> NoDup (ids c') -> sig_match c c' = true ->
+    bind (vars c') (map snd e) = Some e' -> rel CL c' e' st sp.
+Proof. exact bind_rel. Qed.
+Print Assumptions C07_sim_call.
+
+(* Exit: the result reaches X0 (from a register or a spill slot); control then goes to `cleanup` *)
+Theorem C07_sim_exit :
+  forall (im : image) (CL : Z -> ident -> list clause -> Prop) (c : ctx) (e : env) (s : astate) (sp : Z) (v : ident) (z : Z) (tv : atemp),
+    rel CL c e s sp -> lookup_int e v = Some z -> variable_temporary a64_backend Snd c (idn v) = Ok tv ->
+    exists s', run_straight im (a_mov (AR RETURN1) tv) s = MOk s' /\ rget s' RETURN1 = Some z /\
+               frame_ok s' sp /\ frame_eq s s' sp.
+Proof. exact sim_exit_mov. Qed.
+Print Assumptions C07_sim_exit.
+
+(* the prologue and the epilogue (worker a64abi's a64_entry_exit_ok, C13_a64_entry_exit, composed with the entry
+   convention of Sem/A64Sem.v): from the entry state of a C call with up to seven integer arguments, `setup`
+   stores X19-X29 and the LINK REGISTER X30 below the entry SP, reserves the spill area (sp0 = STACK_TOP - 2144,
+   0 mod 16), initialises X1 and leaves argument i in X(2i+5), the register of position i; and from EVERY later
+   state with the body's SP in which the words above the spill area are what the prologue stored (`outer_ok`) -
+   whatever X19-X30 hold by then, X30 possibly being the 13th variable - `cleanup` reloads them, `RET` finds
+   the return marker in X30, and the run ends with OExit of the value in X0: SP and X19-X29 have their entry
+   values (final_check) *)
+Theorem C07_sim_prologue_epilogue :
+  forall (im : image) (args : list Z) (su : list acode),
+    setup (List.length args) = Ok su ->
+    exists s, run_straight im su (init_state args) = MOk s /\
+      frame_ok s sp0 /\ out s = [] /\ (exists f, rget s FREE = Some f) /\
+      (forall i, (i < List.length args)%nat -> rget s (X (2 * N.of_nat i + 5)) = Some (nth i args 0)) /\
+      forall pcc s2 z, code_at im pcc cleanup ->
+        frame_ok s2 sp0 -> outer_ok (stack s) sp0 s2 -> rget s2 RETURN1 = Some z ->
+        finishes im pcc s2 (finish (out s2) (OExit z)).
+Proof. exact prologue_ok. Qed.
+Print Assumptions C07_sim_prologue_epilogue.
+(* the two halves under their own names *)
+Theorem C07_sim_prologue :
+  forall (im : image) (args : list Z) (su : list acode),
+    setup (List.length args) = Ok su ->
+    exists s, run_straight im su (init_state args) = MOk s /\
+      frame_ok s sp0 /\ out s = [] /\ (exists f, rget s FREE = Some f) /\
+      (forall i, (i < List.length args)%nat -> rget s (X (2 * N.of_nat i + 5)) = Some (nth i args 0)).
+Proof. exact prologue_only. Qed.
+Print Assumptions C07_sim_prologue.
+Theorem C07_sim_epilogue :
+  forall (im : image) (args : list Z) (su : list acode) (s : astate) (pcc : positive) (s2 : astate) (z : Z),
+    setup (List.length args) = Ok su -> run_straight im su (init_state args) = MOk s ->
+    code_at im pcc cleanup -> frame_ok s2 sp0 -> outer_ok (stack s) sp0 s2 -> rget s2 RETURN1 = Some z ->
+    finishes im pcc s2 (finish (out s2) (OExit z)).
+Proof. exact epilogue_ok. Qed.
+Print Assumptions C07_sim_epilogue.
+(* what keeps `outer_ok`: code that stores only into the spill area, and the print sequence *)
+Theorem C07_sim_outer_kept :
+  forall (st0 : PM.t Z) (s s' : astate) (sp : Z),
+    (sp_ok sp -> frame_eq s s' sp -> outer_ok st0 sp s -> outer_ok st0 sp s') /\
+    (above_eq s s' sp -> outer_ok st0 sp s -> outer_ok st0 sp s').
+Proof. intros st0 s s' sp. split; [apply frame_eq_outer|apply above_eq_outer]. Qed.
+Print Assumptions C07_sim_outer_kept.
+(* the entry state satisfies the relation for an integer entry context and 64-bit arguments *)
+Theorem C07_sim_entry :
+  forall (CL : Z -> ident -> list clause -> Prop) (c0 : ctx) (args : list Z) (e0 : env) (s : astate),
+    bind (vars c0) (map VInt args) = Some e0 -> NoDup (ids c0) -> ctx_int c0 = true -> (List.length args <= 7)%nat ->
+    args_i64 args = true ->
+    frame_ok s sp0 -> (exists f, rget s FREE = Some f) ->
+    (forall i, (i < List.length args)%nat -> rget s (X (2 * N.of_nat i + 5)) = Some (nth i args 0)) ->
+    rel CL c0 e0 s sp0.
+Proof. exact entry_rel. Qed.
+Print Assumptions C07_sim_entry.
+
+(* composition: for a statement of the fragment that is linearly well-typed in its (integer) context,
+   whose code sits in an image where the definitions' labels resolve to the code emitted for them and
+   `cleanup` to an epilogue that works from every state with the frame intact, the ISA run from a related
+   state ends with exactly the observation of the linear machine - print trace and result, or the undefined
+   operation - whenever the machine's run ends at all (a linearly well-typed statement of the fragment never
+   gets stuck: progress is part of the proof) *)
+Theorem C07_sim_exec :
+  forall (im : image) (p : prog) (sp : Z) (CL : Z -> ident -> list clause -> Prop) (st0 : PM.t Z),
+    (forall d, In d (pdefs p) ->
+       exists pcd lcd cd lcd', find_label (labels im) (show_ident (dname d) +++ "_") = Some pcd /\
+         PM.find pcd (code im) = Some (LAB (show_ident (dname d) +++ "_")) /\
+         code_statement a64_backend (ptypes p) (dbody d) (dctx d) lcd = Ok (cd, lcd') /\
+         code_at im (Pos.succ pcd) cd /\ labels_at_nh im (Pos.succ pcd) cd) ->
+    (exists pcc, find_label (labels im) "cleanup" = Some pcc /\
+       forall s z, frame_ok s sp -> outer_ok st0 sp s -> rget s RETURN1 = Some z -> finishes im pcc s (finish (out s) (OExit z))) ->
+    (forall d, In d (pdefs p) -> lin_check (sigs_of p) (dctx d) (dbody d) = true) ->
+    (forall d, In d (pdefs p) -> def_int d = true) ->
+    (forall d, In d (pdefs p) -> stmt_lits (dbody d) = true) ->
+    forall (fuel : nat) (s : stmt) (c : ctx) (e : env) (ot : prints) (st : astate) (pc : positive)
+           (code : list acode) (lc lc' : N),
+      stmt_int s = true -> stmt_lits s = true -> ctx_int c = true -> lin_check (sigs_of p) c s = true ->
+      code_statement a64_backend (ptypes p) s c lc = Ok (code, lc') ->
+      code_at im pc code -> labels_at_nh im pc code ->
+      rel CL c e st sp -> outer_ok st0 sp st -> out st = ot ->
+      snd (exec_linear fuel p e s ot) <> OOutOfFuel -> finishes im pc st (exec_linear fuel p e s ot).
+Proof. exact sim_exec. Qed.
+Print Assumptions C07_sim_exec.
+
+(* layout: in the image of an instruction list that passes the assembler-level check `asm_wf` (C14,
+   evaluated on the REAL output on every run), instruction j sits at index 1+j and every label not
+   starting with '#' resolves to its own position *)
+Theorem C07_image_layout :
+  forall cs : list acode,
+    asm_wf cs = None -> code_at (mk_image cs) 1%positive cs /\ labels_at_nh (mk_image cs) 1%positive cs.
+Proof. exact mk_image_layout. Qed.
+Print Assumptions C07_image_layout.
+
+(* THE PROGRAM-LEVEL THEOREM for the integer fragment.  For every program p whose definitions all have
+   integer contexts and bodies made of Substitute / Call / Literal / Op / PrintI64 / IfC / Exit
+   (`int_frag`, the same predicate as in C06), whose definition names do not start with '#' (`plain_names`),
+   whose literals are 64-bit values (`lits_i64`: the Rust AST has i64 literals, the model Z), that is linearly
+   well-typed (`lin_check_prog`, C05), for every label-counter start, every argument list of the entry
+   definition's arity made of 64-bit values (`args_i64`) and every fuel: if the code the generator emits passes
+   `asm_wf` (labels unique) and the linear machine's run ENDS (anything but out-of-fuel), then the ISA run of the
+   emitted code on the same arguments makes the same print calls with the same values and ends the same way
+   (same result; same undefined-operation reason).  Any number of variables: 13 register positions - the last
+   one in the link register - and spill slots beyond.
+   Missing to the full C07_codegen_correct_statement: the heap statements Let / Switch and Create / Invoke with
+   captured variables; label uniqueness is a checked hypothesis (asm_wf), not a theorem; divergence is not
+   covered. *)
+Theorem C07_codegen_simulates_int :
+  forall (p : prog) (lc : N) (cs : list acode) (n : nat) (lc' : N) (args : list Z) (fuel : nat) (o : obs),
+    int_frag p = true -> plain_names p = true -> lits_i64 p = true -> lin_check_prog p = true ->
+    a64_compile p lc = Ok (cs, n, lc') -> asm_wf cs = None ->
+    List.length args = n -> args_i64 args = true ->
+    run_linear fuel p args = o -> snd o <> OOutOfFuel ->
+    exists outer inner, fst (run_a64 outer inner cs args) = o.
+Proof. exact a64_codegen_simulates_int. Qed.
+Print Assumptions C07_codegen_simulates_int.
+
+(* the arity hypothesis is needed: with a wrong number of arguments the linear machine refuses to start
+   (OStuck "entry-args"), which no ISA run reports (witness: eight arguments for a one-parameter entry) *)
+Theorem C07_codegen_simulates_int_arity_refuted :
+  ~ (forall (p : prog) (lc : N) (cs : list acode) (n : nat) (lc' : N) (args : list Z) (fuel : nat) (o : obs),
+      int_frag p = true -> plain_names p = true -> lits_i64 p = true -> lin_check_prog p = true ->
+      a64_compile p lc = Ok (cs, n, lc') -> asm_wf cs = None -> args_i64 args = true ->
+      run_linear fuel p args = o -> snd o <> OOutOfFuel ->
+      exists outer inner, fst (run_a64 outer inner cs args) = o).
+Proof. exact ex_arity_needed. Qed.
+Print Assumptions C07_codegen_simulates_int_arity_refuted.
+
+(* the same theorem under the name the partial-statement convention asks for: C07_codegen_correct_statement
+   restricted to the integer fragment (missing: Let / Switch / Create / Invoke; the two 64-bit side conditions
+   and asm_wf are hypotheses) *)
+Theorem C07_codegen_correct_partial :
+  forall (p : prog) (lc : N) (cs : list acode) (n : nat) (lc' : N) (args : list Z) (fuel : nat) (o : obs),
+    int_frag p = true -> plain_names p = true -> lits_i64 p = true -> lin_check_prog p = true -> asm_wf cs = None ->
+    a64_compile p lc = Ok (cs, n, lc') -> args_i64 args = true ->
+    run_linear fuel p args = o -> defined o = true ->
+    exists outer inner, fst (run_a64 outer inner cs args) = o.
+Proof. exact a64_codegen_correct_int. Qed.
+Print Assumptions C07_codegen_correct_partial.
+
+(* the hypotheses are satisfiable by a non-trivial program that crosses the AArch64 specifics (two definitions, a
+   literal needing MOVZ+MOVK+MOVK and one needing MOVN+MOVK, a print with exactly 13 live variables - X30 saved
+   around BL -, 22 variables = spill slots, a rem with all three temporaries spilled = X10 evacuation, Sum Sub
+   Prod Div Rem, both forms of IfC, a three-way explicit substitution with a duplicated source), and the
+   conclusion is what evaluation shows: Proof/A64SimExample.v *)
+Theorem C07_codegen_simulates_int_example_hypotheses :
+  int_frag ex_prog = true /\ plain_names ex_prog = true /\ lits_i64 ex_prog = true /\ lin_check_prog ex_prog = true /\
+  (exists n lc', a64_compile ex_prog 0 = Ok (ex_code, n, lc')) /\ asm_wf ex_code = None.
+Proof. exact ex_hypotheses. Qed.
+Print Assumptions C07_codegen_simulates_int_example_hypotheses.
+Theorem C07_codegen_simulates_int_example_shape :
+  filter (fun c => match c with MOVK _ _ _ | MOVN _ _ _ | MSUB _ _ _ _ | STR (X 10) _ _ | STR (X 29) _ _ | MOVR _ (X 29) => true
+                   | _ => false end) ex_code =
+  [MOVK (X 7) 29179 16; MOVK (X 7) 287 32; MOVN (X 9) 721 0; MOVK (X 9) 46697 16;
+   STR (X 29) SP 56; MOVR (X 0) (X 29); STR (X 10) SP 2040; MSUB (X 2) (X 3) (X 10) (X 2);
+   STR (X 29) SP 56; STR (X 29) SP 56].
+Proof. exact ex_code_shape. Qed.
+Print Assumptions C07_codegen_simulates_int_example_shape.
+Theorem C07_codegen_simulates_int_example_runs :
+  run_linear 100 ex_prog [0] = ([(true, 71); (false, 78); (true, 113580245891316); (false, 113580245891316)], OExit 113580245891316) /\
+  fst (run_a64 10 1000 ex_code [0]) = ([(true, 71); (false, 78); (true, 113580245891316); (false, 113580245891316)], OExit 113580245891316) /\
+  run_linear 100 ex_prog [5] = ([(true, 71); (false, 78); (true, 113580245891316); (false, 113580245891321)], OExit 113580245891321) /\
+  fst (run_a64 10 1000 ex_code [5]) = ([(true, 71); (false, 78); (true, 113580245891316); (false, 113580245891321)], OExit 113580245891321) /\
+  run_linear 100 ex_prog [200] = ([(true, 71); (false, 78); (true, 113580245891316)], OExit (-12345749)) /\
+  fst (run_a64 10 1000 ex_code [200]) = ([(true, 71); (false, 78); (true, 113580245891316)], OExit (-12345749)) /\
+  run_linear 100 ex_prog [100] = ([(true, 71); (false, 78); (true, 113580245891316)], OUndef "div0"%string) /\
+  fst (run_a64 10 1000 ex_code [100]) = ([(true, 71); (false, 78); (true, 113580245891316)], OUndef "div0"%string).
+Proof. exact ex_runs. Qed.
+Print Assumptions C07_codegen_simulates_int_example_runs.
+(* and the theorem applies to it: every 64-bit argument, every sufficient fuel *)
+Theorem C07_codegen_simulates_int_example_applies :
+  forall (x : Z) (fuel : nat) (o : obs),
+    lit_i64 x = true -> run_linear fuel ex_prog [x] = o -> snd o <> OOutOfFuel ->
+    exists outer inner, fst (run_a64 outer inner ex_code [x]) = o.
+Proof. exact ex_simulated. Qed.
+Print Assumptions C07_codegen_simulates_int_example_applies.
+
+
+(* ======================================================================================== *)
+(* Closures without captured variables: create / invoke (the closure fragment)               *)
+(* ======================================================================================== *)
+From SCC Require Import Proof.A64SimAddr Proof.A64SimClo Proof.A64SimProgC Proof.A64SimTopC Proof.A64SimExampleC.
+Open Scope list_scope.
+
+(* byte addresses in the image of ANY instruction list: every placed instruction has an address >= CODE_BASE,
+   consecutive instructions have consecutive addresses (4 bytes per instruction, 0 for labels and directives),
+   and the address of an instruction of non-zero size maps back (index_at: what `BR` uses) to exactly that
+   instruction - so a branch to the address of a label lands on the first real instruction after it (`land`) *)
+Theorem C07_image_addresses : forall cs : list acode, img_ok (mk_image cs).
+Proof. exact mk_image_ok. Qed.
+Print Assumptions C07_image_addresses.
+
+(* `clo_ok im p a T clauses` - what the second temporary of a closure variable points to (the CL of the
+   relation from here on): the clauses are T's destructors in declaration order; `BR` to a (one clause) or to
+   a + 4k (clause k through the jump table of `B` instructions: `jump_length k = 4k` is the ISA's stride,
+   C07_constants_agree) arrives, with the state unchanged, at an index from which every run continues as from
+   the code generated for the body of clause k, which is linearly well-typed in the clause context, in the
+   fragment, with 64-bit literals.  The code a Create statement emits after its continuation (label, table,
+   clause bodies) establishes it for the address `ADR` loads: *)
+Theorem C07_closure_layout :
+  forall (im : image) (p : prog), img_ok im ->
+    (forall pc a, PM.find pc (addr_of im) = Some a -> a < 4611686018427387904) ->
+  forall (pc : positive) (P : list acode) (fresh : string) (tn : ident) (cls : list clause) (c5 : list acode) (lc3 lc5 : N),
+    code_at im pc (P ++ ([LAB fresh] ++ table_or_nil cls fresh) ++ c5) ->
+    labels_at_nh im pc (P ++ ([LAB fresh] ++ table_or_nil cls fresh) ++ c5) ->
+    hash_name fresh = false ->
+    clauses_code (ptypes p) [] fresh cls lc3 = Ok (c5, lc5) ->
+    cls <> [] -> cls_ok (sigs_of p) (Decl tn) cls = true ->
+    (forall c, In c cls -> clause_static p c) ->
+    exists a, label_addr im fresh = Some a /\ clo_ok im p a tn cls.
+Proof. exact create_layout. Qed.
+Print Assumptions C07_closure_layout.
+
+(* Create of a closure without captured variables, ANY context: null block pointer (MOVZ #0) into the first
+   temporary of the new position, the address of the closure's label (ADR; through X2 into a spill slot) into the
+   second; the machine's new environment entry VClo is represented; control continues with the code of the
+   continuation statement *)
+Theorem C07_sim_create :
+  forall (im : image) (p : prog), img_ok im ->
+    (forall pc a, PM.find pc (addr_of im) = Some a -> a < 4611686018427387904) ->
+  forall (c : ctx) (e : env) (s : astate) (sp : Z) (v tn : ident) (cls : list clause) (next : stmt) (lc : N)
+         (code : list acode) (lc' : N) (pc : positive),
+    rel (clo_ok im p) c e s sp -> NoDup (ids (c ++ [mkb v Cns (Decl tn)])) ->
+    code_statement a64_backend (ptypes p) (Create v (Decl tn) (Some []) cls next) c lc = Ok (code, lc') ->
+    code_at im pc code -> labels_at_nh im pc code ->
+    hash_name (type_label (Decl tn) (lc + 1)%N) = false ->
+    cls <> [] -> cls_ok (sigs_of p) (Decl tn) cls = true ->
+    (forall cl, In cl cls -> clause_static p cl) ->
+    exists c12 c3 lc3 rest s',
+      code = c12 ++ c3 ++ rest /\
+      code_statement a64_backend (ptypes p) next (c ++ [mkb v Cns (Decl tn)]) (lc + 1)%N = Ok (c3, lc3) /\
+      run_straight im c12 s = MOk s' /\
+      rel (clo_ok im p) (c ++ [mkb v Cns (Decl tn)]) (e ++ [(v, VClo tn cls [])]) s' sp /\ frame_eq s s' sp.
+Proof. exact sim_create. Qed.
+Print Assumptions C07_sim_create.
+
+(* Invoke, ANY context: whether the type has one destructor (`BR` through the temporary) or several
+   (`ADD tmp, tmp, #4k; BR tmp`; the sum does not wrap because table addresses are below 2^62), with the
+   closure in a register or in a spill slot (then through X2), control arrives at index i, from which every run
+   continues as from the body of the clause the machine selects, in a state related to the machine's new
+   environment (the arguments relabelled by the clause context) *)
+Theorem C07_sim_invoke :
+  forall (im : image) (p : prog)
+         (c : ctx) (e : env) (s : astate) (sp : Z) (v tag : ident) (t : ty) (args : ctx) (code : list acode) (lc lc' : N)
+         (pc : positive) (e0 : env) (x tn : ident) (cls : list clause) (ce : env) (cl : clause) (e1 : env),
+    rel (clo_ok im p) c e s sp ->
+    AxSem.split_last 1 e = Some (e0, [(x, VClo tn cls ce)]) -> N.eqb (idn x) (idn v) = true ->
+    find_clause cls tag = Some cl -> bind (vars (cl_ctx cl)) (map snd e0) = Some e1 ->
+    lin_check (sigs_of p) c (Invoke v tag t args) = true ->
+    code_statement a64_backend (ptypes p) (Invoke v tag t args) c lc = Ok (code, lc') -> code_at im pc code ->
+    exists i pcb lcb cb lcb' s',
+      exec_to im pc s i s' /\ (forall o, finishes im pcb s' o -> finishes im i s' o) /\
+      code_statement a64_backend (ptypes p) (cl_body cl) (cl_ctx cl) lcb = Ok (cb, lcb') /\ code_at im pcb cb /\ labels_at_nh im pcb cb /\
+      clause_static p cl /\
+      rel (clo_ok im p) (cl_ctx cl) (e1 ++ ce) s' sp /\ frame_eq s s' sp.
+Proof. exact sim_invoke. Qed.
+Print Assumptions C07_sim_invoke.
+
+(* composition for the closure fragment (stmt_cf: the integer statements plus Create with an empty
+   environment and at least one clause, and Invoke; variables `ext i64` or `cns T`) *)
+Theorem C07_sim_exec_cf :
+  forall (im : image) (p : prog) (sp : Z) (st0 : PM.t Z),
+    img_ok im ->
+    (forall pc a, PM.find pc (addr_of im) = Some a -> a < 4611686018427387904) ->
+    (forall d, In d (ptypes p) -> hash_name (label_of_type_name (show_ident (tname d))) = false) ->
+    (forall d, In d (pdefs p) ->
+       exists pcd lcd cd lcd', find_label (labels im) (show_ident (dname d) +++ "_") = Some pcd /\
+         PM.find pcd (code im) = Some (LAB (show_ident (dname d) +++ "_")) /\
+         code_statement a64_backend (ptypes p) (dbody d) (dctx d) lcd = Ok (cd, lcd') /\
+         code_at im (Pos.succ pcd) cd /\ labels_at_nh im (Pos.succ pcd) cd) ->
+    (exists pcc, find_label (labels im) "cleanup" = Some pcc /\
+       forall s z, frame_ok s sp -> outer_ok st0 sp s -> rget s RETURN1 = Some z -> finishes im pcc s (finish (out s) (OExit z))) ->
+    (forall d, In d (pdefs p) -> lin_check (sigs_of p) (dctx d) (dbody d) = true) ->
+    (forall d, In d (pdefs p) -> stmt_cf (dbody d) = true) ->
+    (forall d, In d (pdefs p) -> stmt_lits (dbody d) = true) ->
+    forall (fuel : nat) (s : stmt) (c : ctx) (e : env) (ot : prints) (st : astate) (pc : positive)
+           (code : list acode) (lc lc' : N),
+      stmt_cf s = true -> stmt_lits s = true -> lin_check (sigs_of p) c s = true ->
+      code_statement a64_backend (ptypes p) s c lc = Ok (code, lc') ->
+      code_at im pc code -> labels_at_nh im pc code ->
+      rel (clo_ok im p) c e st sp -> outer_ok st0 sp st -> out st = ot ->
+      snd (exec_linear fuel p e s ot) <> OOutOfFuel -> finishes im pc st (exec_linear fuel p e s ot).
+Proof. exact sim_exec_cf. Qed.
+Print Assumptions C07_sim_exec_cf.
+
+(* THE PROGRAM-LEVEL THEOREM for the closure fragment: as C07_codegen_simulates_int, for programs whose
+   variables are integers or closures without captured variables and whose statements are Substitute / Call /
+   Literal / Op / PrintI64 / IfC / Exit / Create (empty environment) / Invoke (`cf_frag`), whose entry
+   definition takes integers (`entry_int`), whose definition and type names do not start with '#', linearly
+   well-typed, 64-bit literals and arguments; the emitted code passes asm_wf and is smaller than 2^62 - 2^30
+   bytes (`code_small`: code addresses are added to table offsets in 64-bit arithmetic).  Every terminating run of
+   the linear machine is reproduced by the ISA run of the emitted code.  This is the shape of the pipeline's
+   output for first-order tail-recursive integer programs (every call passes the return continuation, a closure).
+   Missing to the full statement: closures with captured variables and data (Let / Switch): heap blocks. *)
+Theorem C07_codegen_simulates_cf :
+  forall (p : prog) (lc : N) (cs : list acode) (n : nat) (lc' : N) (args : list Z) (fuel : nat) (o : obs),
+    cf_frag p = true -> entry_int p = true -> plain_names p = true -> plain_types p = true -> lits_i64 p = true ->
+    lin_check_prog p = true ->
+    a64_compile p lc = Ok (cs, n, lc') -> asm_wf cs = None -> code_small cs = true ->
+    List.length args = n -> args_i64 args = true ->
+    run_linear fuel p args = o -> snd o <> OOutOfFuel ->
+    exists outer inner, fst (run_a64 outer inner cs args) = o.
+Proof. exact a64_codegen_simulates_cf. Qed.
+Print Assumptions C07_codegen_simulates_cf.
+
+(* non-vacuity: a program of the pipeline's shape (main creates the return continuation and calls the
+   tail-recursive f, which finally invokes it), a closure of a two-destructor type entered through its jump
+   table from a register, and - behind 13 integers - closures whose code pointer lives in a spill slot (two
+   destructors: LDR, ADD, BR through X2; one destructor: LDR, BR); closures are passed along, dropped (erase of a
+   null pointer) and kept by substitutions *)
+Theorem C07_codegen_simulates_cf_example_hypotheses :
+  cf_frag exc_prog = true /\ entry_int exc_prog = true /\ plain_names exc_prog = true /\ plain_types exc_prog = true /\
+  lits_i64 exc_prog = true /\ lin_check_prog exc_prog = true /\
+  (exists n lc', a64_compile exc_prog 0 = Ok (exc_code, n, lc')) /\ asm_wf exc_code = None /\ code_small exc_code = true.
+Proof. exact exc_hypotheses. Qed.
+Print Assumptions C07_codegen_simulates_cf_example_hypotheses.
+Theorem C07_codegen_simulates_cf_example_runs :
+  run_linear 100 exc_prog [4] = ([(false, 4); (false, 7); (false, 9); (false, 10); (true, 10)], OExit 10) /\
+  fst (run_a64 10 2000 exc_code [4]) = ([(false, 4); (false, 7); (false, 9); (false, 10); (true, 10)], OExit 10) /\
+  run_linear 100 exc_prog [0] = ([], OExit 0) /\
+  fst (run_a64 10 2000 exc_code [0]) = ([], OExit 0) /\
+  run_linear 100 exc_prog [-3] = ([(false, -549)], OExit (-549)) /\
+  fst (run_a64 10 2000 exc_code [-3]) = ([(false, -549)], OExit (-549)) /\
+  run_linear 100 exc_prog [-30] = ([], OExit (-213)) /\
+  fst (run_a64 10 2000 exc_code [-30]) = ([], OExit (-213)).
+Proof. exact exc_runs. Qed.
+Print Assumptions C07_codegen_simulates_cf_example_runs.
